@@ -128,14 +128,10 @@ Ltac open_uri :=
          end.
 
 Ltac fields :=
-  cbv [exec_all PD with_uri U0 empty_uri pdata_init
+  cbv [exec_all fold_left exec PD with_uri U0 empty_uri pdata_init
        set_scheme set_userInfo set_hostText set_ip4 set_ip6 set_ipFuture set_portText set_pathSegs
-       set_query set_fragment set_absolutePath fix_empty_trail is_host_set];
-  cbn [fold_left exec p_uri p_pend p_pend2 p_saved is_some orb negb
-       scheme userInfo hostText ip4 ip6 ipFuture portText pathSegs query fragment absolutePath owner];
-  cbv [with_uri set_scheme set_userInfo set_hostText set_ip4 set_ip6 set_ipFuture set_portText set_pathSegs
-       set_query set_fragment set_absolutePath fix_empty_trail is_host_set];
-  cbn [p_uri p_pend p_pend2 p_saved is_some orb negb
+       set_query set_fragment set_absolutePath fix_empty_trail is_host_set
+       p_uri p_pend p_pend2 p_saved is_some orb negb
        scheme userInfo hostText ip4 ip6 ipFuture portText pathSegs query fragment absolutePath owner].
 
 Ltac unp :=
